@@ -175,6 +175,8 @@ impl<'a> Ex<'a> {
                     let norm = match (parse_address(&got), &model2) {
                         (Some((sheet, k)), Leaf::Ref(m)) if Some(sheet.as_str()) == m.q.sheet() => render_leaf(&Leaf::Ref(Ref { q: m.q.clone(), k })),
                         (Some((sheet, k)), Leaf::RefErr(q, _)) if Some(sheet.as_str()) == q.sheet() => render_leaf(&Leaf::Ref(Ref { q: q.clone(), k })),
+                        // a dead reference: `'Sheet1'!#REF!` and `Sheet1!#REF!` are the same text modulo optional quoting
+                        (None, Leaf::RefErr(q, _)) if dead_ref_sheet(&got).as_deref() == q.sheet() && q.sheet().is_some() => render(&F::L(model2.clone())).text,
                         _ => got.clone(),
                     };
                     let exp = render(&F::L(model2.clone()));
@@ -258,5 +260,17 @@ impl Space for Names {
             }
         }
         sink.count("carried-references", 1);
+    }
+}
+
+/// `Sheet1!#REF!` / `'My Sheet'!#REF!` / `'It''s'!#REF!` -> the sheet name the qualifier stands for.
+fn dead_ref_sheet(text: &str) -> Option<String> {
+    let q = text.strip_suffix("!#REF!")?;
+    if q.len() >= 2 && q.starts_with('\'') && q.ends_with('\'') {
+        Some(q[1..q.len() - 1].replace("''", "'"))
+    } else if q.contains('\'') || q.contains('!') {
+        None
+    } else {
+        Some(q.to_string())
     }
 }
